@@ -13,6 +13,18 @@ CHECKS = {
    technique="TLA+ reference model with handle accounting (FidTable.tla: ReleaseExactlyOnce, UsesOnlyHeld, AfterStopNothingBound) checked by TLC; LTS replayed on the real session, release counters on real entry objects compared after every step",
    text="Same state graph as C08 with the failure alphabet on for every FileSys call and Stop reachable from every state; TLC checks the action properties 'an entry leaves the held set only in a step that releases it exactly once' and 'no call on an entry not held'; on the real code every entry object counts Clunk/Remove/consumption and uses after release, compared with the model's held set after every step and after Stop.",
    note="Trusted: scripted FileSys counting releases; contract reading that a successful Dirent.Create consumes the directory entry (as ramfs implements it). Bounds as C08."),
+ "C06": dict(engine="server", cat="model_checking", ref="5 C06",
+   technique="TLA+ implementation-shaped model of conn.serve (ServeImpl.tla) checked exhaustively by TLC (safety + liveness); TLC behaviours replayed as environment schedules on the real ServeConn; recorded event traces validated by TLC against ServeContract.tla",
+   text="TLC explores every interleaving of reader, serve loop, handler goroutines and writer for 3-4 requests over 2 tags (with duplicates and flushes) and checks the contract ghost state (reply carries own tag and own handler's result, at most one reply, handler once, duplicates refused without disturbing the original) plus liveness 'every request answered'. The same contract is then evaluated by TLC on every event of traces recorded from the real ServeConn driven by schedules taken from TLC behaviours.",
+   note="Trusted: ServeContract.tla as the reading of the property; the scripted handler/raw client that record events (global sequence under one mutex); TLC. A Go select among ready cases cannot be steered: schedules are repeated. Bounds: <=4 requests per model run, <=8 per recorded trace."),
+ "C07": dict(engine="server", cat="model_checking", ref="5 C07",
+   technique="same model as C06 (ServeImpl.tla) with the flush clauses of ServeContract.tla; TLC counterexample of the as-is model (stale completion) replayed repeatedly on the real code; TLC trace validation",
+   text="All timings of Tflush relative to dispatch/completion and all reuses of the freed tag are explored by TLC on the model; the defect toggle FixStale=FALSE must make TLC find the stale-completion counterexample, which is replayed (24x/96x) on the real ServeConn together with seeded simulation schedules; every recorded trace is checked by TLC: no reply for a request after its flush was acknowledged, the tag's next user gets its own reply, the flushed handler's context is cancelled when Rflush is read, every flush gets one reply.",
+   note="As C06. Handlers with odd ids ignore cancellation, even ids honour it."),
+ "C11": dict(engine="server", cat="model_checking", ref="5 C11",
+   technique="ServeImpl.tla with fault actions (read error/EOF, write failure after blocking, context cancel) checked by TLC for safety and liveness (shutdown ~> return, Stop once); fault schedules from TLC replayed on the real ServeConn; traces validated against ServeContract.tla; bounded-return watchdog with goroutine dump",
+   text="TLC checks, for every point at which one fault of any kind can strike relative to <=3-4 in-flight requests, that the serve loop returns (liveness under weak fairness), that every in-flight handler context is then cancelled and that Stop runs exactly once after return. Schedules with faults (simulation + the liveness counterexample of the as-is model) are replayed on the real code: ServeConn must return within 5 s, else a goroutine dump of the parked serve loop is the evidence; recorded traces are validated by TLC (stop exactly once, in-flight contexts cancelled at return).",
+   note="As C06. Mid-frame faults are injected as a truncated frame followed by EOF. The fid-release clause after Stop is checked by the fid engine (every history ends with Stop) and by the stop-race scenarios."),
 }
 
 NA_REASON = "check not built yet in this round; planned per DESIGN.md section 5 (specification exists or is planned, no verdict is claimed)"
